@@ -3,10 +3,12 @@ FILE = 'scales/thrift/sink.py'
 
 CLASSES = {
   'SocketTransportSink': dict(path='SocketTransportSink', bases=['ClientMessageSink'], fields={
-    '_socket': 'Socket', '_state': 'int', '_processing': 'Greenlet?', '_open_result': 'AsyncResult?',
+    '_socket': 'TimedSocket', '_state': 'int', '_processing': 'Greenlet?', '_open_result': 'AsyncResult?',
     # ghost: messages handed to the stack of the transaction in progress
   }),
   'TimeoutObj': dict(extern=True, path=None, bases=[], fields={}),
+  # the serial transport's socket: a gevent.Timeout armed around the transaction may surface in its blocking calls
+  'TimedSocket': dict(extern=True, path=None, bases=['Socket'], fields={}),
   'Greenlet': dict(extern=True, path=None, bases=[], fields={}),
   'Timeout': dict(extern=True, path=None, bases=[], fields={}),
   'NoopTimeout': dict(file='scales/asynchronous.py', path='NoopTimeout', bases=['TimeoutObj'], fields={}),
@@ -123,10 +125,10 @@ EXTERNS = {
                        ensures=['not self.connected', 'self.g_epoch == old(self.g_epoch) + 1'],
                        notes='closes the connection: nothing sent on the old connection can be read afterwards (epoch)'),
   'Socket.isOpen': dict(params=[], returns='bool', ensures=['result == self.connected']),
-  'Socket.write': dict(params=[('data', 'bytes')], may_raise=['Exception', 'Timeout'], modifies=['Socket.g_written'],
+  'TimedSocket.write': dict(params=[('data', 'bytes')], may_raise=['Exception', 'Timeout'], modifies=['Socket.g_written'],
                        ensures=['self.g_written == old(self.g_written) + 1', 'self.connected'], raise_ensures=['self.g_written >= old(self.g_written)'],
                        notes='sendall on the connection; cannot succeed on a closed handle'),
-  'Socket.readAll': dict(params=[('sz', 'int')], returns='bytes', may_raise=['Exception', 'EOFError', 'Timeout'],
+  'TimedSocket.readAll': dict(params=[('sz', 'int')], returns='bytes', may_raise=['Exception', 'EOFError', 'Timeout'],
                          ensures=['blen(result) == sz', 'self.connected']),
   'gevent.Timeout.start_new': dict(params=[('timeout', 'real')], returns='TimeoutObj', fresh=True, allocates=True),
   'gevent.Timeout': dict(params=[], returns='Timeout', fresh=True, allocates=True),
